@@ -331,12 +331,34 @@ func e2eRefusals(c *e2eCtx) error {
 		}, false, true},
 		{"valid-track", []string{"track"}, func(s *scenario, r *rand.Rand) bool { return true }, false, true},
 		{"valid-track-alias-equals-an-imported-package-name", []string{"track"}, func(s *scenario, r *rand.Rand) bool {
-			// the alias of the tracking package is the name of a library that a main package imports:
-			// whether goat copes with the clash or not, it must not find out after it has written
+			// the alias of the tracking package is the name under which a main package already imports
+			// a library; one more commit changes only that library, so the main file itself has no
+			// changed line and gets its import in the main-entry phase. Whether goat copes with the
+			// clash or not, it must not find out after it has written
 			for _, pk := range s.p.Pkgs {
-				if pk.IsMain && len(pk.Imports) > 0 {
-					name := s.p.Pkgs[pk.Imports[0]].Name
-					writeCfg(s, func(c *proj.Config) { c.Alias = name })
+				if !pk.IsMain || len(pk.Imports) == 0 {
+					continue
+				}
+				lib := s.p.Pkgs[pk.Imports[0]]
+				if lib.Dir == "." {
+					continue
+				}
+				for _, rel := range sortedKeys(s.newTree) {
+					if filepath.Dir(rel) != lib.Dir || !eligible(rel, s.cfg) {
+						continue
+					}
+					src := strings.TrimRight(s.newTree[rel], "\n") + "\n\n// ZZNew is all the last commit adds.\nfunc ZZNew() int {\n\tx := 1\n\treturn x\n}\n"
+					if os.WriteFile(filepath.Join(s.dir, rel), []byte(src), 0644) != nil {
+						return false
+					}
+					if _, err := proj.Git(s.dir, 0, "add", rel); err != nil {
+						return false
+					}
+					if _, err := proj.Git(s.dir, 1700000200, "commit", "-q", "-m", "library only"); err != nil {
+						return false
+					}
+					old := s.newRev
+					writeCfg(s, func(c *proj.Config) { c.Old, c.New, c.Alias = old, "HEAD", filepath.Base(lib.Dir) })
 					return true
 				}
 			}
